@@ -75,6 +75,29 @@ func c28Relative(r *core.Run, p *core.Prog) {
 				}
 			}
 		}
+		// the table may also select a multiplier that is applied after it: `unitSeconds = K` per unit, later `acc += unitSeconds * n`
+		if a, ok := x.(*ast.AssignStmt); ok && len(a.Lhs) == 1 && core.ObjOf(info, a.Lhs[0]) == acc && a.Tok == token.ADD_ASSIGN && len(governingConsts(info, f.Decl.Body, a)) == 0 {
+			if b, ok := core.BinOp(a.Rhs[0], token.MUL); ok {
+				for _, operand := range []ast.Expr{b.X, b.Y} {
+					mv, isVar := core.ObjOf(info, operand).(*types.Var)
+					if !isVar {
+						continue
+					}
+					core.Walk(f.Decl.Body, false, func(y ast.Node) bool {
+						ma, ok := y.(*ast.AssignStmt)
+						if !ok || len(ma.Lhs) != 1 || len(ma.Rhs) != 1 || core.ObjOf(info, ma.Lhs[0]) != types.Object(mv) {
+							return true
+						}
+						if k, okc := core.ConstInt(info, ma.Rhs[0]); okc {
+							for _, unit := range governingConsts(info, f.Decl.Body, ma) {
+								units[unit] = k
+							}
+						}
+						return true
+					})
+				}
+			}
+		}
 		if a, ok := x.(*ast.AssignStmt); ok && len(a.Lhs) == 1 && core.ObjOf(info, a.Lhs[0]) == acc {
 			if a.Tok != token.ADD_ASSIGN {
 				badAcc = append(badAcc, fmt.Sprintf("%s: %s %s …", p.Rel(a.Pos()), acc.Name(), a.Tok))
@@ -157,7 +180,7 @@ func c28Range(r *core.Run, p *core.Prog) {
 		core.Walk(f.Decl.Body, false, func(x ast.Node) bool {
 			switch s := x.(type) {
 			case *ast.IfStmt:
-				if b, ok := core.BinOp(s.Cond, token.GTR); ok && core.ObjOf(info, b.X) == first && core.ObjOf(info, b.Y) == last {
+				if b, ok := core.BinOp(s.Cond, token.GTR, token.LSS); ok && ((b.Op == token.GTR && core.ObjOf(info, b.X) == first && core.ObjOf(info, b.Y) == last) || (b.Op == token.LSS && core.ObjOf(info, b.X) == last && core.ObjOf(info, b.Y) == first)) {
 					// the branch must produce an error / detail
 					produces := false
 					core.Walk(s.Body, false, func(y ast.Node) bool {
@@ -172,14 +195,21 @@ func c28Range(r *core.Run, p *core.Prog) {
 					})
 					okOrder = produces
 				}
-				if b, ok := core.BinOp(s.Cond, token.EQL); ok {
-					if v, ok := core.ConstStr(info, b.Y); ok && v == "" {
-						core.Walk(s.Body, false, func(y ast.Node) bool {
-							if a, ok := y.(*ast.AssignStmt); ok && len(a.Lhs) == 1 && core.ObjOf(info, a.Lhs[0]) == last && core.Str(a.Rhs[0]) == "time.Now().Unix()" {
-								okNow = true
-							}
-							return true
-						})
+				// `if x == "" {last = now}` or `if x != "" {…} else {last = now}`
+				if _, y, eq, ok := eqTest(s.Cond, true); ok {
+					if v, okc := core.ConstStr(info, y); okc && v == "" {
+						var branch ast.Node = s.Body
+						if !eq {
+							branch = s.Else
+						}
+						if branch != nil {
+							core.Walk(branch, false, func(y ast.Node) bool {
+								if a, ok := y.(*ast.AssignStmt); ok && len(a.Lhs) == 1 && core.ObjOf(info, a.Lhs[0]) == last && core.Str(resolveLocal(info, f.Decl.Body, a.Rhs[0])) == "time.Now().Unix()" {
+									okNow = true
+								}
+								return true
+							})
+						}
 					}
 				}
 			case *ast.CallExpr:
@@ -220,12 +250,12 @@ func c28Absolute(r *core.Run, p *core.Prog) {
 			}
 		case *ast.RangeStmt:
 			loopPos = s.Pos()
-			xs := core.Str(s.X)
+			xs := core.Str(resolveLocal(info, f.Decl.Body, s.X))
 			okLists = strings.Contains(xs, "timeFormatsDefault") && strings.Contains(xs, "timeFormatsCustom") && strings.Index(xs, "timeFormatsDefault") < strings.Index(xs, "timeFormatsCustom")
 			// body: t, err = time.ParseInLocation(fmt.Format, str, loc); if err == nil { return t.Unix(), nil }
 			parse, ret := false, false
 			core.Walk(s.Body, false, func(y ast.Node) bool {
-				if c, ok := y.(*ast.CallExpr); ok && core.CallName(info, c) == "time.ParseInLocation" && len(c.Args) == 3 && strings.HasSuffix(core.Str(c.Args[0]), ".Format") {
+				if c, ok := y.(*ast.CallExpr); ok && core.CallName(info, c) == "time.ParseInLocation" && len(c.Args) == 3 && strings.HasSuffix(core.Str(resolveLocal(info, f.Decl.Body, c.Args[0])), ".Format") {
 					parse = true
 				}
 				if ifs, ok := y.(*ast.IfStmt); ok {
